@@ -107,6 +107,15 @@ impl InferShapes for OneHot {
     }
 }
 
+/// Clamp an element count which may be negative to zero.
+fn non_negative(len: SymExpr) -> SymExpr {
+    if len.is_positive() {
+        len
+    } else {
+        len.max(&SymExpr::Value(0))
+    }
+}
+
 /// Range operator.
 ///
 /// See <https://onnx.ai/onnx/operators/onnx__Range.html>.
@@ -165,13 +174,13 @@ impl InferShapes for Range {
             }
             // Range(0, limit, 1) has shape [limit]
             (Some(SymExpr::Value(0)), Some(limit), Some(SymExpr::Value(1))) => {
-                SymTensor::from_shape(vec![limit])
+                SymTensor::from_shape(vec![non_negative(limit)])
             }
             // Range(start, start + limit, 1) has shape [limit]
             (Some(start), Some(SymExpr::Add(limit_lhs, limit_rhs)), Some(SymExpr::Value(1)))
                 if start == *limit_lhs =>
             {
-                SymTensor::from_shape(vec![(*limit_rhs).clone()])
+                SymTensor::from_shape(vec![non_negative((*limit_rhs).clone())])
             }
             // Range(start, limit, 1) has shape [limit - start]
             (Some(start), Some(limit), Some(SymExpr::Value(1))) => {
